@@ -320,5 +320,7 @@ func (its *WiredDatatype) NeedPull(sseq uint64) bool {
 
 // NeedPush verifies if the datatype needs to push
 func (its *WiredDatatype) NeedPush() bool {
-	return its.checkPoint.Cseq < its.opID.GetSeq()
+	need := its.checkPoint.Cseq < its.opID.GetSeq()
+	verifhook.Yield("client.needpush.read")
+	return need
 }
